@@ -52,6 +52,12 @@ fn required(plan: &Plan) -> Vec<String> {
         "generations:4",
         "sources:>=4",
         "no-free-tag",
+        "pool-shape:0",
+        "pool-shape:1",
+        "pool-shape:2",
+        "pool-shape:3",
+        "pool-shape:4",
+        "entry-in-last-table-slot",
     ]
     .iter()
     .map(|s| s.to_string())
@@ -245,14 +251,34 @@ fn generations(ctx: &mut Ctx) {
     let h = ctx.hist_no;
     // the pool: a few frequent strings plus a tail; first bytes either clustered or spread over all values
     let spread = h % 3 == 0;
-    let npool = rng.range(1, 40);
+    // pool shapes: few clustered first bytes / first bytes spread over all values / only very low
+    // first bytes (so that assigned tags lie above every seen first byte and the last slot of the
+    // tag table is a real entry) / many distinct ASCII strings (more entries than the largest
+    // first byte)
+    let shape = h % 5;
+    let npool = match shape {
+        3 => rng.range(2, 30),
+        4 => rng.range(120, 300),
+        _ => rng.range(1, 40),
+    };
     let mut pool: Vec<Vec<u8>> = Vec::new();
     for i in 0..npool {
-        let first: u8 = if spread { rng.next() as u8 } else { (b'a' + (i % 5) as u8) as u8 };
+        let first: u8 = match shape {
+            3 => rng.below(4) as u8,
+            4 => b'a' + (i % 20) as u8,
+            _ if spread => rng.next() as u8,
+            _ => b'a' + (i % 5) as u8,
+        };
         let mut s = vec![first];
-        s.extend((0..rng.below(8)).map(|_| if spread { rng.next() as u8 } else { b'a' + rng.below(4) as u8 }));
+        if shape == 4 {
+            s.extend(format!("w{i}").into_bytes());
+        } else {
+            s.extend((0..rng.below(8)).map(|_| if spread { rng.next() as u8 } else { b'a' + rng.below(4) as u8 }));
+        }
         pool.push(s);
     }
+    pool.sort();
+    pool.dedup();
     if h % 7 == 0 {
         // all 256 first-byte values are seen: no tag is free
         for b in 0..=255u8 {
@@ -266,6 +292,7 @@ fn generations(ctx: &mut Ctx) {
     let mut current: Vec<Obs> = (0..nsrc).map(|i| Obs::fresh(&format!("src{i}"))).collect();
     // generation 0: default regions accept everything
     let heavy = rng.range(0, pool.len() - 1);
+    ctx.cover(&format!("pool-shape:{shape}"));
     for (i, o) in current.iter_mut().enumerate() {
         if h % 7 == 0 && i == 0 {
             // make sure every first-byte value really is absorbed
@@ -276,9 +303,13 @@ fn generations(ctx: &mut Ctx) {
                 }
             }
         }
-        let n = rng.range(0, 80);
+        let n = if shape >= 3 { pool.len() * 2 + rng.below(40) } else { rng.range(0, 80) };
         for k in 0..n {
-            let s = if rng.chance(3, 5) { pool[heavy].clone() } else if rng.chance(1, 8) { gen_string(&mut rng, &pool) } else { pool[rng.below(pool.len())].clone() };
+            let s = if shape >= 3 && k < pool.len() * 2 {
+                // every pool string twice (in the exact regime all of them outrank nothing: equal
+                // counts), plus the heavy one below
+                pool[k % pool.len()].clone()
+            } else if rng.chance(3, 5) { pool[heavy].clone() } else if rng.chance(1, 8) { gen_string(&mut rng, &pool) } else { pool[rng.below(pool.len())].clone() };
             if s.is_empty() {
                 ctx.cover("empty:default");
             }
@@ -326,10 +357,23 @@ fn generations(ctx: &mut Ctx) {
         // covered pushes into m: everything the sources absorbed must be accepted
         let mut covered: Vec<Vec<u8>> = refs.iter().flat_map(|o| o.absorbed.strings.keys().cloned()).collect();
         covered.push(Vec::new());
-        let n = rng.range(1, 80);
+        let sweep = covered.len() <= 400;
+        let n = if sweep { covered.len() + rng.range(1, 40) } else { rng.range(1, 80) };
+        // coverage: is the highest tag that can be assigned above every first byte the sources saw?
+        {
+            let seen_max = refs.iter().flat_map(|o| o.absorbed.first.iter().copied()).max();
+            let distinct: usize = covered.len() - 1;
+            if let Some(mx) = seen_max {
+                if distinct > mx as usize {
+                    ctx.cover("entry-in-last-table-slot");
+                }
+            }
+        }
         let mut ok = true;
         for k in 0..n {
-            let s = if !one_byte.is_empty() && rng.chance(1, 2) {
+            let s = if sweep && k < covered.len() {
+                covered[k].clone()
+            } else if !one_byte.is_empty() && rng.chance(1, 2) {
                 one_byte.iter().nth(rng.below(one_byte.len())).unwrap().clone()
             } else {
                 covered[rng.below(covered.len())].clone()
